@@ -23,16 +23,18 @@ namespace tlx {
 
 /*!
  * Join a vector of strings using a separator character. If any string contains
- * the separator, quote the field. In the quoted string, escape all quotes,
- * escapes, \\n, \\r, \\t sequences. This is the opposite of split_quoted().
+ * the separator, is empty or begins with the quote character, quote the
+ * field. In the quoted string, escape all quotes, escapes, \\n, \\r, \\t
+ * sequences. This is the opposite of split_quoted().
  */
 std::string join_quoted(const std::vector<std::string>& strs, char sep,
                         char quote, char escape);
 
 /*!
  * Join a vector of strings using spaces as separator character. If any string
- * contains a space, quote the field. In the quoted string, escape all quotes,
- * escapes, \\n, \\r, \\t sequences. This is the opposite of split_quoted().
+ * contains a space, is empty or begins with a quote, quote the field. In the
+ * quoted string, escape all quotes, escapes, \\n, \\r, \\t sequences. This is the
+ * opposite of split_quoted().
  */
 std::string join_quoted(const std::vector<std::string>& strs);
 
